@@ -1,5 +1,6 @@
 import KojenVerif.Lemmas.EngineInner
 import KojenVerif.Lemmas.EngineFilter
+import KojenVerif.Lemmas.EngineSig
 import KojenVerif.Lemmas.Str
 /-
   C16 — template engine: per-element blocks expand once per element, in model order.
@@ -11,11 +12,12 @@ import KojenVerif.Lemmas.Str
   (`C16_blocks_in_place`); a state / event / action / guard block is expanded once per element, in the
   order of the model's list, name tags by the element's name in the tag's case, `NUM` by the
   zero-based index and `ALPH` by the letter (`C16_once_per_element_in_order`, `C16_case_variants`,
-  `C16_counters`, `C16_letter_cycle`); the blank-line filter (`C16_blank_lines`) and the TAB
+  `C16_counters`, `C16_letter_cycle`); a per-action-signature block once per (action, event) pair
+  (`C16_action_signature_block`); the blank-line filter (`C16_blank_lines`) and the TAB
   filter (`C16_tab_filter`).
   Claimed through the correspondence and the reference expander only, not yet proved: the
   nested per-state / per-event / per-guard transition expansion with alternative texts,
-  per-action-signature blocks, struct / message blocks, signature / member / documentation /
+  struct / message blocks, signature / member / documentation /
   attribute lines (see DESIGN.md 6/C16 staging).
 
   Hypotheses are decidable conditions on the concrete template and model, evaluated by the
@@ -45,6 +47,17 @@ theorem C16_once_per_element_in_order (env : Env) (ht : EnvTotal env) (items : L
     innerExpand env false items (body.map Spec.BItem.render) [] =
       some ((((enumFrom 0 items).map (fun p => Spec.bodyFor (elemDict p.2 p.1) body)).flatten).map Spec.bitemText) :=
   innerExpand_names env ht items body h
+
+/-- **Per-action-signature block.** Once per (action, event) pair, in the given order — the
+    table's pairs in order of first appearance (`Table.actionSigs`, duplicate-free) —, every
+    body line kept, ACTIONNAME / EVENTNAME in their case variants and the counters replaced; an
+    absent event is written `NONE`. -/
+theorem C16_action_signature_block (sigs : List (Str × Str)) (body : List Spec.BItem)
+    (hb : ∀ i ∈ body, match i with | .line l => LineOK l | .blank t => Clean t)
+    (hc : ∀ p ∈ enumFrom 0 sigs, ChainOK (sigDict p.2.1 p.2.2 p.1)) :
+    sigExpand sigs (body.map Spec.BItem.render) [] =
+      some ((((enumFrom 0 sigs).map (fun p => body.map (Spec.BItem.subst (Spec.byDict (sigDict p.2.1 p.2.2 p.1))))).flatten).map Spec.bitemText) :=
+  sigExpand_eq sigs body hb hc
 
 /-- the elements are numbered 0, 1, 2, … in list order -/
 theorem C16_enum (items : List Str) : (enumFrom 0 items).map (·.1) = List.range items.length := by
